@@ -613,6 +613,28 @@ pub fn check_c09(case: &RawCase, rr: &RawRun, an: &Analysed, out: &mut Outcome) 
             return;
         }
     }
+    if inj.item == "stream-over-concurrency-limit" {
+        // the demand (a refusal) presupposes that as many earlier streams as the endpoint advertised were still open,
+        // from the endpoint's point of view, when the surplus stream arrived
+        if let Some(last) = inj.never_surface.first() {
+            let limit = an.tap.frames.iter().filter(|f| f.from == e).filter_map(|f| if let Ok(Frame::Settings { ack: false, params }) = &f.frame { params.iter().find(|p| p.0 == 3).map(|p| p.1 as usize) } else { None }).last();
+            let t_last = an.tap.frames.iter().filter(|f| f.from != e && f.raw.stream == *last && matches!(&f.frame, Ok(Frame::Headers { .. }))).filter_map(|f| f.t_d).min();
+            if let (Some(limit), Some(t_last)) = (limit, t_last) {
+                let ws = crate::oracles2::wire_streams(&an.tap);
+                let i = tapx::side_idx(e);
+                let p = 1 - i;
+                let open = ws.iter().filter(|(s, w)| **s % 2 == 1 && **s < *last && w.opened_by.is_some()).filter(|(_, w)| {
+                    let both_ended = w.end[i].map(|x| x.0 <= t_last).unwrap_or(false) && w.end[p].map(|x| x.1.map(|d| d <= t_last).unwrap_or(false)).unwrap_or(false);
+                    let rst = w.rst[i].iter().any(|r| r.0 <= t_last) || w.rst[p].iter().any(|r| r.1.map(|d| d <= t_last).unwrap_or(false));
+                    !(both_ended || rst)
+                }).count();
+                if open < limit {
+                    out.label("premise-not-met:limit-not-reached");
+                    return;
+                }
+            }
+        }
+    }
     out.nontrivial = true;
     let _ = mark_t;
     // E's frames after the first injected byte was delivered
